@@ -36,3 +36,25 @@ Print Assumptions C10_unfilled_reg.
 Theorem C10_unfilled_propagates : forall ms l t, In t l -> subst_ttok ms t = None -> subst_operand ms l = None.
 Proof. exact subst_operand_none. Qed.
 Print Assumptions C10_unfilled_propagates.
+
+(* the statement of the property itself: when the invocation's operands are accepted by a macro variant (and by none
+   before it) and every placeholder of its steps can be filled, the invocation assembles to exactly what the expanded
+   statements -- the step templates with the placeholders replaced by the matched operands' texts -- assemble to, one after
+   the other; if some placeholder cannot be filled the invocation is not assembled at all *)
+Theorem C10_macro_is_its_expansion : forall f regs i mn operands skipped mv later ms stmts,
+  isa_get i (map lower mn) = Some (EMacro (skipped ++ mv :: later)) ->
+  Forall (fun v => mv_match regs operands v = inl None) skipped ->
+  mv_match regs operands mv = inl (Some ms) ->
+  expand ms (mv_steps mv) = Some stmts ->
+  assemble_stmt (S f) regs i mn operands = assemble_seq f regs i stmts.
+Proof. exact macro_is_its_expansion. Qed.
+Print Assumptions C10_macro_is_its_expansion.
+
+Theorem C10_unfillable_not_assembled : forall f regs i mn operands skipped mv later ms,
+  isa_get i (map lower mn) = Some (EMacro (skipped ++ mv :: later)) ->
+  Forall (fun v => mv_match regs operands v = inl None) skipped ->
+  mv_match regs operands mv = inl (Some ms) ->
+  expand ms (mv_steps mv) = None ->
+  forall r, assemble_stmt (S f) regs i mn operands <> Ok r.
+Proof. exact macro_unfillable_not_ok. Qed.
+Print Assumptions C10_unfillable_not_assembled.
